@@ -491,4 +491,76 @@ def pcfScan : List Text → List Nat
 
 def pcfDeclared (t : Text) : List Nat := pcfScan (splitNl t)
 
+/-! ### the whole event-type section of a .pcf read back
+
+Again independent of the writer: the lines of the file, an `EVENT_TYPE` line
+opens a block — `0 <id> <label>`, `VALUES`, then one `<value> <label>` line
+per value up to the first blank line (or the end of the file).  Every other
+line (the default options, the colours, the blank lines) is skipped.  The
+reader is strict: a block that does not have this shape makes the whole file
+unreadable (`none`). -/
+
+/-- one `EVENT_TYPE` block as read: id, label, (value, label) lines -/
+abbrev PcfBlock := Nat × Text × List (Int × Text)
+
+instance : DecidableEq PcfBlock := inferInstanceAs (DecidableEq (Nat × Text × List (Int × Text)))
+
+/-- What `%-Wd ` leaves between a number that took `used` characters and the
+    label: the blanks that fill the `W` columns, then the separating blank.
+    (Stripping *all* blanks would be wrong: the CPU names ` CPU 0.0` begin with
+    one.) -/
+def skipPad (w used : Nat) (t : Text) : Option Text := expect (List.replicate (w - used) ' ' ++ [' ']) t
+
+/-- `0 <id> <label>` with the id left-justified in 10 columns → (id, label) -/
+def parsePcfTypeLine (l : Text) : Option (Nat × Text) :=
+  match expect ['0', ' '] l with
+  | none => none
+  | some r => match readNat r with
+    | none => none
+    | some (n, r') => (skipPad 10 (r.length - r'.length) r').map fun lab => (n, lab)
+
+/-- `<value> <label>` with the value left-justified in 4 columns → (value, label) -/
+def parsePcfValueLine (l : Text) : Option (Int × Text) :=
+  match readInt l with
+  | none => none
+  | some (v, r) => (skipPad 4 (l.length - r.length) r).map fun lab => (v, lab)
+
+/-- the value lines up to the first blank line (or the end of the file) -/
+def pcfValueLines : List Text → Option (List (Int × Text))
+  | [] => some []
+  | l :: ls =>
+    if l = [] then some []
+    else match parsePcfValueLine l, pcfValueLines ls with
+      | some v, some vs => some (v :: vs)
+      | _, _ => none
+
+/-- the lines after an `EVENT_TYPE` line → (id, label, values) -/
+def parsePcfBlock : List Text → Option PcfBlock
+  | tl :: vl :: r =>
+    if vl = litValues then
+      match parsePcfTypeLine tl, pcfValueLines r with
+      | some (id, lab), some vs => some (id, lab, vs)
+      | _, _ => none
+    else none
+  | _ => none
+
+def parsePcfLines : List Text → Option (List PcfBlock)
+  | [] => some []
+  | l :: ls =>
+    if l = litEventType then
+      match parsePcfBlock ls, parsePcfLines ls with
+      | some b, some bs => some (b :: bs)
+      | _, _ => none
+    else parsePcfLines ls
+
+/-- **The event types of a .pcf text**: per `EVENT_TYPE` block, in file order,
+    the type id, its label and the (value, label) lines under `VALUES`. -/
+def parsePcfTypes (t : Text) : Option (List PcfBlock) := parsePcfLines (splitNl t)
+
+/-- the values a .pcf text labels for a type (none if the text is unreadable) -/
+def pcfValuesOf (t : Text) (type : Nat) : List Int :=
+  match parsePcfTypes t with
+  | none => []
+  | some bs => (bs.filter (·.1 == type)).flatMap fun b => b.2.2.map (·.1)
+
 end Ovni.Emu.PvText
